@@ -201,6 +201,8 @@ def main(tier):
     jobs += [(job_steps_read_only_the_grid, (8, 2, 4)), (job_steps_read_only_the_grid, (9, 1, 2))]
     jobs += [(preloop.job_rw_sets, ()), (preloop.job_rw_sets, (5, 1))]      # what an observer computes is a function of what it observes: moments from projection and charges only - not from what an earlier observation left behind
     jobs += [(job_heap_independent, (w, 6, 2, 3)) for w in ('rflin', 'rfsin', 'drift', 'fp', 'identity')] + [(job_heap_independent, ('fp', 6, 1, 4, 4, 1))]
+    import c14 as _c14
+    jobs += [(_c14.job_process_state, ())]      # results must not depend on which object of the process came first (function-local / file-scope statics)
     jobs += mainloop.jobs_for('C12', tier)
     K = 2 if tier == 'quick' else 3
     chk.bounds = {'frame conditions': 'write sets of symbolic runs of every observer call on small grids (4-8), all data symbolic', 'schedule independence': 'all paths of main\'s loop with <= %d iterations; symbolic cadences and presence flags' % K}
